@@ -113,6 +113,41 @@ def observe(binary, root, src):
     return ob
 
 
+def erase_kinds(src):
+    """the text of a folded expression with the kind marks of its literals removed (B5 / 0b101 / 5f / 5.0 -> 5): expressions that
+    differ only in the kinds of their literals become neighbours in a batch"""
+    import re
+    src = re.sub(r"0b([01]+)", lambda m: str(int(m.group(1), 2)), src)
+    src = re.sub(r"\bB(\d)", r"\1", src)
+    src = re.sub(r"(\d)f\b", r"\1", src)
+    return re.sub(r"(\d)\.0\b", r"\1", src)
+
+
+def observe_batch(binary, root, exprs):
+    """many folded expressions in one compilation unit, one print each; returns one observation per expression"""
+    d = root / f"slot{threading.get_ident()}"
+    d.mkdir(exist_ok=True)
+    src = 'print "go"\n' + "".join(f"print {e}\n" for e in exprs)
+    (d / "main.ms").write_text(src)
+    tr = d / "t.ndjson"
+    if tr.exists():
+        tr.unlink()
+    r = C.run_proc([binary, "run", "main.ms", "-q"], cwd=d, timeout=20, env=dict(MSCRIPT_VERIF_TRACE=str(tr), MSCRIPT_VERIF_TRACE_INS="0"))
+    ev = [e for e in corpus.read_ndjson(tr) if e.get("e") == "print"]
+    err = C.strip_ansi(r["err"])
+    status = "timeout" if r["timeout"] else "reject" if ("Did not compile" in err or (r["exit"] == 101 and "panicked at compiler" in err)) else "ok"
+    out = []
+    for k in range(len(exprs)):
+        ob = dict(exit=r["exit"], err=err[-300:], diag=C.strip_ansi(r["out"])[-300:], val=dict(kind="none", dec="0"), vals=[], status=status)
+        if status == "ok":
+            if k + 1 < len(ev) and not ev[k + 1]["kind"].startswith("Vector<"):
+                ob["val"] = scalar(ev[k + 1]["kind"], ev[k + 1]["text"], ev[k + 1].get("bits"))
+            else:
+                ob["status"] = "fail"
+        out.append(ob)
+    return src, out
+
+
 def run(tier, replay=None):
     rep = C.Report(PID, tier, "translation_validation")
     binary = C.build()
@@ -141,6 +176,23 @@ def run(tier, replay=None):
         c["mixed"] = [observe(binary, root, s) for s in c["mixed_src"]]
         return c
     C.pmap(one, cases)
+    # ---- batched rendering: the folded text of many trees in ONE compilation unit (what the compiler folds must not depend on
+    # what else it has folded): neighbours differ only in the kinds of their literals, in both orders; judged like a mixed rendering
+    elig = sorted((c for c in cases if c["tree"]["k"] != "list2" and c["folded"]["status"] == "ok"),
+                  key=lambda c: (erase_kinds(c["folded_src"].split("\n")[1]), c["id"]))
+    BS = 40
+    batches = [elig[k:k + BS] for k in range(0, len(elig), BS)]
+    batches += [list(reversed(b)) for b in batches]
+
+    def batch(b):
+        src, obs = observe_batch(binary, root, [c["folded_src"].split("\n")[1][len("print "):] for c in b])
+        return b, src, obs
+    nb = 0
+    for b, src, obs in C.pmap(batch, batches):
+        for c, o in zip(b, obs):
+            c["mixed"].append(o)
+            c["mixed_src"].append(src)
+            nb += 1
     slim = lambda o: dict(status=o["status"], val=o["val"], vals=o["vals"])
     fcs = work / "cases.ndjson"
     C.write_ndjson(fcs, [dict(id=c["id"], tree=c["tree"], folded=slim(c["folded"]), unfolded=slim(c["unfolded"]), mixed=[slim(o) for o in c["mixed"]]) for c in cases])
@@ -163,10 +215,10 @@ def run(tier, replay=None):
     vres = vmv.stage(binary, work / "vmv", vpool, 600 if tier == "quick" else 8000, random.Random(rep.seed))
     vcov = vmv.report(rep, vres, "unfolded expression tree")
     rep.coverage = dict(**vcov, traces_validated_against_impl=vres["recorded"],
-        programs=2 * len(cases) + sum(len(c["mixed"]) for c in cases), mixed_renderings=sum(len(c["mixed"]) for c in cases), disagreements_checked=len(r.prints.get("DISAGREE", [])), trees=len(cases), out_of_model_or_ill_typed=skips,
+        programs=2 * len(cases) + sum(len(c["mixed"]) for c in cases), mixed_renderings=sum(len(c["mixed"]) for c in cases), batched_renderings=nb, batches=len(batches), disagreements_checked=len(r.prints.get("DISAGREE", [])), trees=len(cases), out_of_model_or_ill_typed=skips,
         states=r.distinct + g1.distinct + vres["states"], transitions=r.generated + g1.generated + vres["transitions"],
         evaluations=len(cases), distinct_nontrivial=len(cases) - skips,
-        rule="GenExpr.tla: every tree with at most one operator level over the literal set (quick: 10 literals, thorough: 27) x {+ - * / % << >> & | xor, unary minus, get, or} incl. two-element lists, plus seeded -simulate trees up to depth 3 below the root; each rendered folded, unfolded and half-folded (every other literal through a variable, both parities)",
+        rule="GenExpr.tla: every tree with at most one operator level over the literal set (quick: 10 literals, thorough: 27) x {+ - * / % << >> & | xor, unary minus, get, or} incl. two-element lists, plus seeded -simulate trees up to depth 3 below the root; each rendered folded, unfolded and half-folded (every other literal through a variable, both parities); every tree whose folded rendering compiles is also compiled in batches of 40 folded expressions per compilation unit, neighbours differing only in the kinds of their literals, in both orders",
         samples=[dict(tree=c["id"], folded=c["folded_src"].split("\n")[1], unfolded_status=c["unfolded"]["status"], value=c["unfolded"]["val"]) for c in cases[:: max(1, len(cases) // 3)][:3]],
     )
     rep.assumptions = ["literals are non-negative; a sign is an operator node in both renderings", "MSNum self-tested against an independent reference (see C05)",
